@@ -51,6 +51,20 @@ fn rec(body_ret: &str) -> String {
     format!("do f(n) start if to say (n small pass 1) start return 0 end {body_ret} end ")
 }
 
+pub fn syntactic_shape_texts(depths: &[usize]) -> Vec<(String, String)> {
+    let mut v = Vec::new();
+    for s in shapes(false) {
+        if s.name.starts_with("nest-") || s.name.starts_with("chain-") || s.name.starts_with("ladder-") {
+            for &d in depths {
+                if d <= 1usize << s.max_pow {
+                    v.push((format!("{} d={d}", s.name), (s.build)(d)));
+                }
+            }
+        }
+    }
+    v
+}
+
 fn shapes(thorough: bool) -> Vec<Shape> {
     let hi = if thorough { 20 } else { 17 };
     let mid = 17;
@@ -88,6 +102,25 @@ fn shapes(thorough: bool) -> Vec<Shape> {
         Shape { name: "nest-function-defs", build: |d| format!("{}shout(1) {}", (0..d).map(|i| format!("do f{i}() start ")).collect::<String>(), "end ".repeat(d)), expect: None, max_pow: 14 },
         Shape { name: "ladder-else", build: |d| format!("make x get 1 {}shout(1) {}", "if to say (x na 0) start end if not so start ".repeat(d), "end ".repeat(d)), expect: Some(|_| "1".into()), max_pow: hi },
         Shape { name: "nest-interpolation-args", build: |d| format!("make v get 1 shout({}\"{{v}}\"{})", "to_string(".repeat(d), ")".repeat(d)), expect: Some(|_| "1".into()), max_pow: hi },
+        // nesting and chains combined: every level of a nested operand carries its own chain, so
+        // the tree is (levels x chain) high although neither alone is deep
+        Shape { name: "nest-parens-each-with-chain-250", build: |d| format!("make x get 0 shout({}x{})", "(".repeat(d), " add 1 add 1 add 1 add 1 add 1 add 1 add 1 add 1 add 1 add 1 add 1 add 1 add 1 add 1 add 1 add 1 add 1 add 1 add 1 add 1 add 1 add 1 add 1 add 1 add 1\n add 1 add 1 add 1 add 1 add 1 add 1 add 1 add 1 add 1 add 1 add 1 add 1 add 1 add 1 add 1 add 1 add 1 add 1 add 1 add 1 add 1 add 1 add 1 add 1 add 1\n add 1 add 1 add 1 add 1 add 1 add 1 add 1 add 1 add 1 add 1 add 1 add 1 add 1 add 1 add 1 add 1 add 1 add 1 add 1 add 1 add 1 add 1 add 1 add 1 add 1\n add 1 add 1 add 1 add 1 add 1 add 1 add 1 add 1 add 1 add 1 add 1 add 1 add 1 add 1 add 1 add 1 add 1 add 1 add 1 add 1 add 1 add 1 add 1 add 1 add 1\n add 1 add 1 add 1 add 1 add 1 add 1 add 1 add 1 add 1 add 1 add 1 add 1 add 1 add 1 add 1 add 1 add 1 add 1 add 1 add 1 add 1 add 1 add 1 add 1 add 1\n add 1 add 1 add 1 add 1 add 1 add 1 add 1 add 1 add 1 add 1 add 1 add 1 add 1 add 1 add 1 add 1 add 1 add 1 add 1 add 1 add 1 add 1 add 1 add 1 add 1\n add 1 add 1 add 1 add 1 add 1 add 1 add 1 add 1 add 1 add 1 add 1 add 1 add 1 add 1 add 1 add 1 add 1 add 1 add 1 add 1 add 1 add 1 add 1 add 1 add 1\n add 1 add 1 add 1 add 1 add 1 add 1 add 1 add 1 add 1 add 1 add 1 add 1 add 1 add 1 add 1 add 1 add 1 add 1 add 1 add 1 add 1 add 1 add 1 add 1 add 1\n add 1 add 1 add 1 add 1 add 1 add 1 add 1 add 1 add 1 add 1 add 1 add 1 add 1 add 1 add 1 add 1 add 1 add 1 add 1 add 1 add 1 add 1 add 1 add 1 add 1\n add 1 add 1 add 1 add 1 add 1 add 1 add 1 add 1 add 1 add 1 add 1 add 1 add 1 add 1 add 1 add 1 add 1 add 1 add 1 add 1 add 1 add 1 add 1 add 1 add 1)".repeat(d)), expect: None, max_pow: 12 },
+        // the tallest tree a depth counter that forgets operand heights would still accept: the
+        // level at nesting depth j carries a chain of (236 - j) operators
+        Shape { name: "nest-parens-each-with-longest-admissible-chain", build: |d| {
+            let mut s = format!("make x get 0 shout({}x", "(".repeat(d));
+            for k in 0..d {
+                let depth = d - k;
+                s.push_str(&" add 1".repeat(236usize.saturating_sub(depth)));
+                s.push_str(")\n");
+            }
+            s.push(')');
+            s
+        }, expect: None, max_pow: 9 },
+        Shape { name: "nest-parens-each-with-chain-d", build: |d| format!("make x get 0 shout({}x{})", "(".repeat(d), format!("{})\n", " add 1".repeat(d)).repeat(d)), expect: None, max_pow: 10 },
+        Shape { name: "nest-unary-each-with-chain-d", build: |d| format!("shout({}true{})", "not (".repeat(d), format!("{})\n", " and true".repeat(d)).repeat(d)), expect: None, max_pow: 10 },
+        Shape { name: "nest-index-each-with-chain-d", build: |d| format!("make a get [0] shout({}a{})", "(".repeat(d), format!("{})\n", "[0]".repeat(d)).repeat(d)), expect: None, max_pow: 10 },
+        Shape { name: "nest-array-elements-with-method-chain-d", build: |d| format!("shout({}\"s\"{}.len())", "[".repeat(d), format!("{}][0]\n", ".trim()".repeat(d)).repeat(d)), expect: None, max_pow: 10 },
         // data nested by a loop: built, copied on read, printed, compared, joined
         Shape { name: "data-nested-array-build", build: |d| format!("make a get [] make i get 0 jasi (i small pass {d}) start a get [a] i get i add 1 end shout(i)"), expect: Some(count), max_pow: mid },
         Shape { name: "data-nested-array-print", build: |d| format!("make a get [] make i get 0 jasi (i small pass {d}) start a get [a] i get i add 1 end shout(to_string(a).len())"), expect: None, max_pow: mid },
